@@ -345,7 +345,7 @@ def layer_probes(ctx, n, mscope):
         for b in BUILTIN_NAMES:
             kw['BI_' + b] = getattr(builtins, b)
         try:
-            got = PageTemplate(src)(**kw)
+            got = __import__('vlib.routes').routes.make(PageTemplate, src, 8, __import__('vlib.state').state.CTX)(**kw)
         except Exception as e:
             got = 'RAISED %s %s' % (type(e).__name__, str(e).split('\n')[0][:100])
         ctx.mon('probe-programs-compared')
